@@ -127,13 +127,30 @@ func structFields(c *report.Ctx, pkg, name string) []*types.Var {
 		return nil
 	}
 	var out []*types.Var
-	for i := 0; i < st.NumFields(); i++ {
-		f := st.Field(i)
-		if a := an.FieldName(n, f.Name()); a != f.Name() {
-			f = types.NewField(f.Pos(), f.Pkg(), a, f.Type(), f.Embedded()) // a field recognised as renamed
+	var add func(n types.Type, st *types.Struct, depth int)
+	add = func(n types.Type, st *types.Struct, depth int) {
+		for i := 0; i < st.NumFields(); i++ {
+			f := st.Field(i)
+			if f.Embedded() && depth < 4 {
+				// an embedded helper struct the pinned tree does not have: its fields count as this struct's own
+				et := f.Type()
+				if p, ok := et.(*types.Pointer); ok {
+					et = p.Elem()
+				}
+				if en, ok := et.(*types.Named); ok && en.Obj().Pkg() != nil && load.GlueStruct[en.Obj().Pkg().Path()+"."+en.Obj().Name()] {
+					if est, ok := en.Underlying().(*types.Struct); ok {
+						add(en, est, depth+1)
+						continue
+					}
+				}
+			}
+			if a := an.FieldName(n, f.Name()); a != f.Name() {
+				f = types.NewField(f.Pos(), f.Pkg(), a, f.Type(), f.Embedded()) // a field recognised as renamed
+			}
+			out = append(out, f)
 		}
-		out = append(out, f)
 	}
+	add(n, st, 0)
 	return out
 }
 
@@ -151,6 +168,15 @@ func methodsOf(c *report.Ctx, pkg, name string) []*ssa.Function {
 		f := c.P.Prog.FuncValue(m)
 		if f != nil && len(f.Blocks) > 0 && !c.P.Absorbed[f] {
 			out = append(out, f) // (helpers absorbed into their callers by the normal form are seen there)
+		}
+	}
+	// methods promoted from an embedded helper struct the pinned tree does not have
+	ms := c.P.Prog.MethodSets.MethodSet(types.NewPointer(n))
+	for i := 0; i < ms.Len(); i++ {
+		if sel := ms.At(i); len(sel.Index()) > 1 {
+			if f := c.P.Prog.MethodValue(sel); f != nil && load.PromoWrapper[f] && len(f.Blocks) > 0 {
+				out = append(out, f)
+			}
 		}
 	}
 	sort.Slice(out, func(i, j int) bool { return out[i].Name() < out[j].Name() })
